@@ -1,6 +1,7 @@
 from typing import Final
 
 from pyteal.types import TealType, require_type
+from pyteal.errors import verifyFieldVersion
 from pyteal.ir import Op
 from pyteal.ast.expr import Expr
 from pyteal.ast.maybe import MaybeValue
@@ -292,6 +293,10 @@ class AssetParam:
             TealType.bytes,
             immediate_args=["AssetCreator"],
             args=[asset],
+            # the AssetCreator field was introduced in program version 5
+            compile_check=lambda options: verifyFieldVersion(
+                "AssetCreator", 5, options.version
+            ),
         )
 
 
